@@ -47,6 +47,7 @@ type Params struct {
 	PersistDelayMs   int    `json:"persist_delay_ms,omitempty"`
 	RestoreDelayMs   int    `json:"restore_delay_ms,omitempty"`
 	StoreDelayMs     int    `json:"store_delay_ms,omitempty"` // every StoreLogs takes this long (slow disk)
+	StableDelayMs    int    `json:"stable_delay_ms,omitempty"` // every stable-store write (term, vote) takes this long
 	DelayEvery       uint64 `json:"delay_every,omitempty"`
 }
 
@@ -153,6 +154,7 @@ func NewCluster(w *World, seed int64, p Params) *Cluster {
 		name := fmt.Sprintf("s%d", i)
 		nd := &Node{c: c, idx: i, name: name, disk: NewDisk(w, name, p.Flavor)}
 		nd.disk.StoreDelay = time.Duration(p.StoreDelayMs) * time.Millisecond
+		nd.disk.StableDelay = time.Duration(p.StableDelayMs) * time.Millisecond
 		nd.disk.onCrash = func(reason string) { c.afterCrash(nd) }
 		nd.down = true
 		c.Nodes = append(c.Nodes, nd)
@@ -493,6 +495,21 @@ func (c *Cluster) Leader() *Node {
 }
 
 // Leaders returns all running nodes that report Leader.
+// IsMemberNow: is nd listed (with or without a vote) in the configuration `from` currently reports?
+func (c *Cluster) IsMemberNow(from, nd *Node) bool {
+	in := from.Cur()
+	if in == nil {
+		return false
+	}
+	_, all := currentVoters(in)
+	for _, v := range all {
+		if v == nd.name {
+			return true
+		}
+	}
+	return false
+}
+
 // IsVoterNow: is nd a voter in the configuration `from` currently reports?
 func (c *Cluster) IsVoterNow(from, nd *Node) bool {
 	in := from.Cur()
